@@ -1194,8 +1194,12 @@ impl<D: Distance> Writer<D> {
 
         // If we didn't find a hyperplane, just randomize sides as a last option
         // and set the split plane to zero as a dummy plane.
+        // A plane with a non-finite coordinate is no hyperplane either: coordinates close
+        // to f32::MAX overflow the centroids, every margin against it would be NaN.
         let (children_left, children_right) =
-            if split_imbalance(children_left.len() as u64, children_right.len() as u64) > 0.99 {
+            if split_imbalance(children_left.len() as u64, children_right.len() as u64) > 0.99
+                || normal.iter().any(|x| !x.is_finite())
+            {
                 let mut children_left = RoaringBitmap::new();
                 let mut children_right = RoaringBitmap::new();
                 randomly_split_children(rng, item_indices, &mut children_left, &mut children_right);
